@@ -156,3 +156,45 @@ class Report:
             return 1
         print('PASS property=%s tier=%s obligations=%d known_findings=%d wall=%.1fs' % (self.pid, self.tier, n_obl, len(self.known_hits), wall))
         return 0
+
+
+class Renamed:
+    """View of a Report under which a rule function written for one property reports under the rule ids of another:
+    ids in `mapping` are translated, everything the function says about other rules is dropped (they are decided where they live)."""
+
+    def __init__(self, rep, mapping):
+        self._rep = rep
+        self._map = dict(mapping)
+
+    def rule(self, rid, text):
+        if rid in self._map:
+            self._rep.rule(self._map[rid], text)
+
+    def ok(self, rule, instance, detail=''):
+        if rule in self._map:
+            self._rep.ok(self._map[rule], instance, detail)
+
+    def fail(self, rule, sig, site, what, path=None):
+        if rule in self._map:
+            self._rep.fail(self._map[rule], sig, site, what, path)
+
+    def check(self, cond, rule, sig, site, what, path=None):
+        if rule in self._map:
+            self._rep.check(cond, self._map[rule], sig, site, what, path)
+        return cond
+
+    def minimum(self, rule, found, minimum, what):
+        if rule in self._map:
+            self._rep.minimum(self._map[rule], found, minimum, what)
+
+    def covered(self, **kw):
+        pass
+
+    def assume(self, text):
+        pass
+
+    def note(self, text):
+        pass
+
+    def sample(self, s):
+        pass
